@@ -6,6 +6,8 @@ import BS.Properties.C17
 #print axioms BS.Reader.head_lawful
 #print axioms BS.Reader.multi_lawful
 #print axioms BS.Reader.filter_lawful
+#print axioms BS.Reader.flat_lawful
+#print axioms BS.Reader.flat_drain
 #print axioms BS.Reader.pipeline_example
 #print axioms BS.Reader.multiBuggy_loses_rows
 #print axioms BS.Reader.headBuggy_writes_beyond
